@@ -10,144 +10,8 @@ that name (`HeapInv`, kept by every run); `Call_Val` on a bound method is the sp
 namespace HmsProofs.Sim
 open Hms.Core Hms.Core.Comp Hms.Core.VM
 
-theorem evalExpr_call_eq (cfg f sp ty base args st) :
-    evalExpr cfg (f + 2) (.call sp ty base args false) st =
-      match evalExpr cfg f base st with
-      | (.ok fv, st1) =>
-        (match evalList cfg f (args.map (·.2)) st1 with
-          | (.ok vals, st2) => applyFn cfg f sp fv vals st2
-          | (.error c, st2) => (.error c, st2))
-      | (.error c, st1) => (.error c, st1) := by
-  rw [evalExpr]
-  simp only [Bool.false_eq_true, if_false]
-  rw [evalCall, M_bind]
-  rcases evalExpr cfg f base st with ⟨r1, st1⟩
-  cases r1 with
-  | error c => rfl
-  | ok fv =>
-    simp only []
-    rw [M_bind]
-    generalize evalList cfg f (List.map (fun x => x.snd) args) st1 = rr
-    obtain ⟨r2, st2⟩ := rr
-    cases r2 <;> rfl
-
-theorem applyFn_bound (cfg f sp recv name vals st) :
-    applyFn cfg (f + 1) sp (.bound recv name) vals st = callMember recv name vals sp st := by
-  rw [applyFn]
-
-/-- Under the heap invariant `l.len` / `l.push` is the bound method. -/
-theorem memberVal_method (b : Val) (name : String) (sp : Span) (st : St) (hinv : HeapInv st.heap)
-    (hn : name = "len" ∨ name = "push") :
-    memberVal b name .dot sp st = (.ok (.bound b name), st) ∨
-      ∃ w, memberVal b name .dot sp st = (.error (.unsupported w), st) := by
-  rw [memberVal_dot]
-  cases b <;> try (left; rfl)
-  case ref a =>
-    simp only []
-    cases hc : st.heap[a]? with
-    | none => right; exact ⟨_, rfl⟩
-    | some c =>
-      cases c <;> try (left; rfl)
-      rename_i fs
-      have := hinv a fs hc
-      rcases hn with rfl | rfl
-      · left; simp only [this.1]
-      · left; simp only [this.2]
-  case range x y i =>
-    left
-    rcases hn with rfl | rfl <;> rfl
-
-/-- **`l.len()`** in the value position of a `let` (`cgL`). -/
-theorem len_sim (G : GCtx) (n : Nat) (hPX : ∀ m, m ≤ n → PX G m) (A : Act) (hA : A.OK G)
-    (csp : Span) (cty : Ty) (msp : Span) (mty : Ty) (b : Expr)
-    (spec : St) (ip : Nat) (stk : List SVal) (mem : Mem) (lm : LM) (scopes : CScopes) (vm : List (String × Nat))
-    (hfr : G.fr = true) (hb : Frag.okXE b = true) (hwb : Frag.wsGE scopes A.φ b = true)
-    (hT : ∀ x ∈ Frag.namesGE b, x ∈ A.T)
-    (hpl : Placed A.lab A.σ A.c ip (cgL G.mod (ρS scopes) A.φ (.call csp cty (.member msp mty b "len" .dot) [] false) lm).1)
-    (hrel : StRel G.mod A.T A.N A.σ G.lim A.mp scopes vm spec.scopes mem) (hsp : SpecOK G A.mp spec) :
-    SimOE G A ip (nI (cgL G.mod (ρS scopes) A.φ (.call csp cty (.member msp mty b "len" .dot) [] false) lm).1) stk mem spec
-      (evalExpr G.cfg n (.call csp cty (.member msp mty b "len" .dot) [] false) spec) := by
-  match n, hPX with
-  | 0, _ => rw [evalExpr]; trivial
-  | 1, _ => rw [evalExpr]; simp only [Bool.false_eq_true, if_false]; rw [evalCall]; trivial
-  | 2, _ => rw [evalExpr_call_eq, evalExpr]; trivial
-  | g + 3, hPX =>
-  simp only [cgL] at hpl ⊢
-  generalize hCB : cgE G.mod (ρS scopes) A.φ b lm = CB at hpl ⊢
-  obtain ⟨hpB, hplX⟩ := hpl.append
-  obtain ⟨imem, hX1⟩ := hplX.instr (i := .member "len") rfl
-  obtain ⟨ipush, hX2⟩ := hX1.instr (i := .copyPush (.int 0)) rfl
-  obtain ⟨icall, _⟩ := hX2.instr (i := .callVal) rfl
-  have hnX : nI [((Instr.member "len" : SInstr), msp), (.copyPush (.int 0), csp), (.callVal, csp)] = 3 := rfl
-  simp only [nI_append, hnX] at ⊢
-  rw [evalExpr_call_eq, evalExpr_member]
-  have h1 := hPX g (by omega) A hA b spec ip stk mem lm scopes vm hb hwb hT (hCB ▸ hpB) hrel hsp
-  rw [hCB] at h1
-  rcases heb : evalExpr G.cfg g b spec with ⟨r1, st1⟩
-  rw [heb] at h1
-  cases r1 with
-  | error c1 => exact SimGE.error_n _ h1
-  | ok bv =>
-  obtain ⟨hfr1, mem1, ob, hrun1, hml1⟩ := h1
-  simp only []
-  have hsp1 := hsp.world st1 hfr1 hrun1.inv
-  have hinv := hsp1.heap hfr
-  have hmr := member_runs G A hA msp (ip + nI CB.1) stk mem1 st1 bv "len" ob imem
-  rcases memberVal_method bv "len" msp st1 hinv (Or.inl rfl) with hm | ⟨w, hm⟩
-  · rw [hm] at hmr ⊢
-    simp only [] at hmr ⊢
-    rw [List.map_nil, evalList_nil]
-    · simp only []
-      show SimOE G A ip _ stk mem spec (applyFn G.cfg (g + 1) csp (.bound bv "len") [] st1)
-      rw [applyFn_bound]
-      have hpush := Runs.of_runsTo (fr := G.fr) (mem := mem1) (fun it_ => RunsTo.of_exec1 (fun k =>
-        reach_push G.code G.lim (baseOf (withIt G.s it_) A.fn A.rest A.mp st1.world) (ip + nI CB.1 + 1) k
-          (⟨.bound bv "len", memOrg st1.heap bv "len"⟩ :: stk) mem1 ⟨A.fn, 0⟩ A.rest A.c rfl hA.code (.int 0) csp
-          (.int (I64.ofInt 0)) ipush (fun _ => rfl)))
-      have hcm := callMember_len bv csp st1
-      have hcall : ∀ (nv : Val), callMember bv "len" [] csp st1 = (.ok nv, st1) → nv ≠ .null →
-          Runs G.fr G.code G.lim G.s A.fn A.rest A.mp (ip + nI CB.1 + 1 + 1)
-            (⟨.int (I64.ofInt 0), none⟩ :: ⟨.bound bv "len", memOrg st1.heap bv "len"⟩ :: stk) mem1 st1.world
-            (ip + nI CB.1 + 1 + 1 + 1) (⟨nv, none⟩ :: stk) mem1 st1.world := by
-        intro nv hnv hne
-        refine Runs.of_exec1 (fr := G.fr) (mem := mem1) (fun it_ k => ?_)
-        refine mkS_callVal_len G.code G.lim (withIt G.s it_) A.fn _ A.rest A.mp k stk mem1.cells st1.world A.c hA.code csp bv
-          none _ nv icall ?_ hne
-        have h2 := callMember_len bv csp { (withIt G.s it_).st with heap := st1.world.heap, out := st1.world.out }
-        rw [callMember_len] at hnv
-        rw [h2]
-        cases bv <;> try (simp only [] at hnv ⊢; first | (cases hnv; rfl) | cases hnv)
-        rename_i a
-        simp only [] at hnv ⊢
-        show (match st1.heap[a]? with
-          | some (Cell.list xs) => _
-          | some _ => _
-          | none => _) = _
-        cases hc : st1.heap[a]? with
-        | none => rw [hc] at hnv; cases hnv
-        | some c =>
-          rw [hc] at hnv
-          cases c <;> first | (cases hnv; rfl) | cases hnv
-      rw [hcm]
-      cases bv <;> try trivial
-      · rename_i s
-        simp only []
-        exact ⟨hfr1, mem1, none, (((hrun1.trans hmr).trans hpush).trans
-          (hcall _ (by rw [callMember_len]) (by intro h; cases h))).cast (by omega), hml1⟩
-      · rename_i a
-        simp only []
-        cases hc : st1.heap[a]? with
-        | none => trivial
-        | some c =>
-          cases c <;> try trivial
-          rename_i xs
-          simp only []
-          exact ⟨hfr1, mem1, none, (((hrun1.trans hmr).trans hpush).trans
-            (hcall _ (by rw [callMember_len]; simp only [hc]) (by intro h; cases h))).cast (by omega), hml1⟩
-  · rw [hm]; trivial
-
 /-- **`l.push(x);`** with an atom `x`. -/
-theorem push_step (G : GCtx) (n : Nat) (hPX : ∀ m, m ≤ n → PX G m) (A : Act) (hA : A.OK G)
+theorem push_step (G : GCtx) (n : Nat) (hPX : ∀ m, m ≤ n → PV G m) (A : Act) (hA : A.OK G)
     (loops : List (String × String)) (lscopes : CScopes) (d : Nat)
     (sp csp : Span) (cty : Ty) (msp : Span) (mty : Ty) (b : Expr) (a : String × Expr)
     (env : CEnv) (spec : St) (ip : Nat) (stk : List SVal) (mem : Mem)
@@ -163,30 +27,27 @@ theorem push_step (G : GCtx) (n : Nat) (hPX : ∀ m, m ≤ n → PX G m) (A : Ac
       (GRel G A (cgS G.mod A.src A.φ loops (.exprS sp (.call csp cty (.member msp mty b "push" .dot) [a] false)) env).2.scopes
         (cgS G.mod A.src A.φ loops (.exprS sp (.call csp cty (.member msp mty b "push" .dot) [a] false)) env).2.vm) spec
       (evalExpr G.cfg n (.call csp cty (.member msp mty b "push" .dot) [a] false) spec) := by
-  simp only [Frag.okFS, Bool.and_eq_true, beq_iff_eq] at hs
-  obtain ⟨⟨⟨⟨hfr, _⟩, _⟩, hb⟩, hat⟩ := hs
+  simp only [Frag.okFS, Bool.and_eq_true, beq_iff_eq, Bool.or_eq_true] at hs
+  obtain ⟨⟨⟨⟨⟨hfr, _⟩, _⟩, hb⟩, hoa⟩, hatoms⟩ := hs
   simp only [Frag.wsGS, Bool.and_eq_true] at hws
   obtain ⟨hwb, hwa⟩ := hws
-  simp only [Frag.wsGArgs, Frag.varsGArgs, Frag.callsGArgs, List.append_nil, Bool.and_eq_true] at hwa
+  have hwa' : Frag.wsGE env.scopes A.φ a.2 = true := by
+    simpa [Frag.wsGArgs, Frag.varsGArgs, Frag.callsGArgs, Frag.wsGE] using hwa
   simp only [Frag.identsGS, List.mem_append] at hT
-  have hpa := atom_pure a.2 hat
   have hTb : ∀ x ∈ Frag.namesGE b, x ∈ A.T := fun x hx => hT x (Or.inl hx)
-  have hTa : ∀ x ∈ Frag.varsE a.2, x ∈ A.T := by
+  have hTa : ∀ x ∈ Frag.namesGE a.2, x ∈ A.T := by
     intro x hx
     refine hT x (Or.inr ?_)
-    simp only [Frag.namesGArgs, Frag.varsGArgs, List.append_nil, List.mem_append]
-    exact Or.inl (by rw [varsGE_pure a.2 hpa]; exact hx)
-  have hresa : Frag.resolved env.scopes (Frag.varsE a.2) = true := by rw [← varsGE_pure a.2 hpa]; exact hwa.1
+    simp only [Frag.namesGArgs, Frag.varsGArgs, Frag.callsGArgs, List.append_nil]
+    exact hx
   match n, hPX with
   | 0, _ => rw [evalExpr]; trivial
   | 1, _ => rw [evalExpr]; simp only [Bool.false_eq_true, if_false]; rw [evalCall]; trivial
   | 2, _ => rw [evalExpr_call_eq, evalExpr]; trivial
   | g + 3, hPX =>
-  have hlma : (cpE G.mod (ρS env.scopes) a.2 env.lm).2 = env.lm := cpE_atom_lm _ _ _ a.2 env.lm (Nat.le_refl _) hat
-  have hcg : cgE G.mod (ρS env.scopes) A.φ a.2 env.lm = cpE G.mod (ρS env.scopes) a.2 env.lm :=
-    cgE_of_pure G.mod (ρS env.scopes) A.φ a.2 env.lm hpa
-  simp only [cgS, hcg, hlma] at hpl ⊢
-  generalize hCB : cgE G.mod (ρS env.scopes) A.φ b env.lm = CB at hpl ⊢
+  simp only [cgS] at hpl ⊢
+  generalize hCA : cgE G.mod (ρS env.scopes) A.φ a.2 env.lm = CA at hpl ⊢
+  generalize hCB : cgE G.mod (ρS env.scopes) A.φ b CA.2 = CB at hpl ⊢
   obtain ⟨hAB, hplX⟩ := hpl.append
   obtain ⟨hpA, hpB⟩ := hAB.append
   obtain ⟨imem, hX1⟩ := hplX.instr (i := .member "push") rfl
@@ -195,68 +56,133 @@ theorem push_step (G : GCtx) (n : Nat) (hPX : ∀ m, m ≤ n → PX G m) (A : Ac
   have hnX : nI [((Instr.member "push" : SInstr), msp), (.copyPush (.int 1), csp), (.callVal, csp)] = 3 := rfl
   simp only [nI_append, hnX] at imem ipush icall hpB ⊢
   simp only [← Nat.add_assoc] at imem ipush icall
-  -- the argument: an atom
-  obtain ⟨v, hv, hrunA⟩ := atom_runs G A hA a.2 spec ip stk mem env.lm env.scopes env.vm hat hresa hTa hpA hrel.rel
   rw [evalExpr_call_eq, evalExpr_member]
-  have h1 := hPX g (by omega) A hA b spec (ip + nI (cpE G.mod (ρS env.scopes) a.2 env.lm).1) (⟨v, none⟩ :: stk) mem env.lm
-    env.scopes env.vm hb hwb hTb (hCB ▸ hpB) hrel.rel hsp
-  rw [hCB] at h1
-  rcases heb : evalExpr G.cfg g b spec with ⟨r1, st1⟩
-  rw [heb] at h1
-  cases r1 with
-  | error c1 =>
-    exact SimGS.of_exprError _ hrel hls
-      (SimOE.error_after (st0 := spec) 0 [⟨v, none⟩] (hrunA spec.world) (by cases spec; rfl) (MemLe.refl _ _ _) h1)
-  | ok bv =>
-  obtain ⟨hfr1, mem1, ob, hrun1, hml1⟩ := h1
-  simp only []
-  have hrunAB := (hrunA spec.world).trans hrun1
-  have hsp1 := hsp.world st1 hfr1 hrunAB.inv
-  have hinv := hsp1.heap hfr
-  have hmr := member_runs G A hA msp (ip + nI (cpE G.mod (ρS env.scopes) a.2 env.lm).1 + nI CB.1) (⟨v, none⟩ :: stk) mem1 st1 bv
-    "push" ob imem
-  rcases memberVal_method bv "push" msp st1 hinv (Or.inr rfl) with hm | ⟨w, hm⟩
-  · rw [hm] at hmr ⊢
-    simp only [] at hmr ⊢
-    -- the argument on the specification side: the same value, the state untouched
-    have hb2 := bound_of_resolved hrel.rel.scopes (Frag.varsE a.2) hTa hresa
-    obtain ⟨v', hv', hev1, _⟩ := atom_eval G.cfg _ a.2 st1 (Nat.le_refl _) hat (by rw [hfr1]; exact hb2)
-    have hsc1 : st1.scopes = spec.scopes := by rw [hfr1]
-    rw [hsc1, hv] at hv'
-    cases hv'
-    simp only [List.map_cons, List.map_nil]
-    rw [evalList_cons]
-    rcases hev1 g with h | h
+  -- the tail: `Member push; Copy_Push 1; Call_Val` on a list
+  have tail : ∀ (bv v : Val) (ov ob : Option Org) (st1 : St) (mem1 : Mem),
+      st1 = { spec with out := st1.out, heap := st1.heap } → MemLe G.fr A.mp mem mem1 →
+      Runs G.fr G.code G.lim G.s A.fn A.rest A.mp ip stk mem spec.world (ip + nI CA.1 + nI CB.1)
+        (⟨bv, ob⟩ :: ⟨v, ov⟩ :: stk) mem1 st1.world →
+      SimGS G A loops lscopes d ip (nI CA.1 + nI CB.1 + 3) stk mem (GRel G A env.scopes env.vm) spec
+        (callMember bv "push" [v] csp st1) := by
+    intro bv v ov ob st1 mem1 hfr1 hml1 hrun
+    rw [callMember_push]
+    cases bv <;> try trivial
+    rename_i ad
+    simp only []
+    cases hc : st1.heap[ad]? with
+    | none => trivial
+    | some c =>
+      cases c <;> try trivial
+      rename_i xs
+      simp only []
+      have hmr := member_runs G A hA msp (ip + nI CA.1 + nI CB.1) (⟨v, ov⟩ :: stk) mem1 st1 (.ref ad) "push" ob imem
+      have hmv : memberVal (.ref ad) "push" .dot msp st1 = (.ok (.bound (.ref ad) "push"), st1) := by
+        rw [memberVal_dot]; simp only [hc]
+      rw [hmv] at hmr
+      simp only [] at hmr
+      have hpush := Runs.of_runsTo (fr := G.fr) (mem := mem1) (fun it_ => RunsTo.of_exec1 (fun k =>
+        reach_push G.code G.lim (baseOf (withIt G.s it_) A.fn A.rest A.mp st1.world)
+          (ip + nI CA.1 + nI CB.1 + 1) k
+          (⟨.bound (.ref ad) "push", memOrg st1.heap (.ref ad) "push"⟩ :: ⟨v, ov⟩ :: stk) mem1 ⟨A.fn, 0⟩ A.rest A.c rfl hA.code
+          (.int 1) csp (.int (I64.ofInt 1)) ipush (fun _ => rfl)))
+      have hcall := Runs.of_exec1W (fr := G.fr) (mem := mem1) (fun it_ k =>
+        mkS_callVal_push G.code G.lim (withIt G.s it_) A.fn _ A.rest A.mp k stk mem1.cells st1.world A.c hA.code csp ad xs v
+          none (memOrg st1.heap (.ref ad) "push") ov icall hc) (fun hi => hi.set _ _ (fun fs h => by cases h))
+      refine ⟨by rw [hfr1], mem1, (((hrun.trans hmr).trans hpush).trans hcall).cast (by omega), hml1.mono (by omega), ?_⟩
+      show GRel G A env.scopes env.vm st1.scopes mem1
+      rw [hfr1]; exact hrel.memLe hml1
+  rcases hatoms with hab | hat
+  · -- the receiver is an atom: the argument runs first on the VM, second in the specification
+    have hpb := atom_pure b hab
+    have hvb := varsGE_pure b hpb
+    have hresb : Frag.resolved env.scopes (Frag.varsE b) = true := by
+      rw [← hvb]; simp only [Frag.wsGE, Bool.and_eq_true] at hwb; exact hwb.1
+    have hTb' : ∀ x ∈ Frag.varsE b, x ∈ A.T := fun x hx => hTb x (by simp [Frag.namesGE, hvb, hx])
+    have hbb := bound_of_resolved hrel.rel.scopes (Frag.varsE b) hTb' hresb
+    obtain ⟨bv, hbv, hevb, _⟩ := atom_eval G.cfg _ b spec (Nat.le_refl _) hab hbb
+    rcases hevb g with h | h
     · rw [h]; trivial
     · rw [h]
       simp only []
-      cases g with
-      | zero => rw [evalList]; trivial
-      | succ g' =>
-      rw [evalList_nil]
+      rcases memberVal_method bv "push" msp spec (hsp.heap hfr) (Or.inr rfl) with hm | ⟨w, hm⟩
+      · rw [hm]
+        simp only [List.map_cons, List.map_nil]
+        rw [evalList_cons]
+        have h1 := hPX g (by omega) A hA a.2 spec ip stk mem env.lm env.scopes env.vm hoa hwa' hTa (hCA ▸ hpA) hrel.rel hsp
+        rw [hCA] at h1
+        rcases hea : evalExpr G.cfg g a.2 spec with ⟨r1, st1⟩
+        rw [hea] at h1
+        cases r1 with
+        | error c1 => exact SimGS.of_exprError _ hrel hls h1
+        | ok v =>
+          obtain ⟨hfr1, mem1, ov, hrun1, hml1⟩ := h1
+          simp only []
+          cases g with
+          | zero => rw [evalList]; trivial
+          | succ g' =>
+          rw [evalList_nil]
+          simp only []
+          show SimGS G A loops lscopes d ip _ stk mem _ spec (applyFn G.cfg (g' + 1 + 1) csp (.bound bv "push") [v] st1)
+          rw [applyFn_bound]
+          have hrel1 : StRel G.mod A.T A.N A.σ G.lim A.mp env.scopes env.vm st1.scopes mem1 := by
+            rw [hfr1]; exact hrel.rel.memLe hml1.cells
+          rw [cgE_of_pure _ _ _ _ _ hpb] at hCB
+          obtain ⟨bv', hbv', hrunB⟩ := atom_runs G A hA b st1 (ip + nI CA.1) (⟨v, ov⟩ :: stk) mem1 CA.2 env.scopes env.vm
+            hab hresb hTb' (by rw [hCB]; exact hpB) hrel1
+          have hsc : st1.scopes = spec.scopes := by rw [hfr1]
+          rw [hsc, hbv] at hbv'
+          cases hbv'
+          rw [hCB] at hrunB
+          exact tail bv v ov none st1 mem1 hfr1 hml1 (hrun1.trans (hrunB st1.world))
+      · rw [hm]; trivial
+  · -- the argument is an atom
+    have hpa := atom_pure a.2 hat
+    have hva := varsGE_pure a.2 hpa
+    have hresa : Frag.resolved env.scopes (Frag.varsE a.2) = true := by
+      rw [← hva]; simp only [Frag.wsGE, Bool.and_eq_true] at hwa'; exact hwa'.1
+    have hTa' : ∀ x ∈ Frag.varsE a.2, x ∈ A.T := fun x hx => hTa x (by simp [Frag.namesGE, hva, hx])
+    rw [cgE_of_pure _ _ _ _ _ hpa] at hCA
+    have hlma : (cpE G.mod (ρS env.scopes) a.2 env.lm).2 = env.lm := cpE_atom_lm _ _ _ a.2 env.lm (Nat.le_refl _) hat
+    obtain ⟨v, hv, hrunA⟩ := atom_runs G A hA a.2 spec ip stk mem env.lm env.scopes env.vm hat hresa hTa'
+      (by rw [hCA]; exact hpA) hrel.rel
+    rw [hCA] at hrunA
+    have hCA2 : CA.2 = env.lm := by rw [← hCA]; exact hlma
+    have h1 := hPX g (by omega) A hA b spec (ip + nI CA.1) (⟨v, none⟩ :: stk) mem CA.2 env.scopes env.vm hb hwb hTb
+      (hCB ▸ hpB) hrel.rel hsp
+    rw [hCB] at h1
+    rcases heb : evalExpr G.cfg g b spec with ⟨r1, st1⟩
+    rw [heb] at h1
+    cases r1 with
+    | error c1 =>
+      exact SimGS.of_exprError _ hrel hls
+        (SimOE.error_after (st0 := spec) 0 [⟨v, none⟩] (hrunA spec.world) (by cases spec; rfl) (MemLe.refl _ _ _) h1)
+    | ok bv =>
+    obtain ⟨hfr1, mem1, ob, hrun1, hml1⟩ := h1
+    simp only []
+    have hrunAB := (hrunA spec.world).trans hrun1
+    have hsp1 := hsp.world st1 hfr1 hrunAB.inv
+    rcases memberVal_method bv "push" msp st1 (hsp1.heap hfr) (Or.inr rfl) with hm | ⟨w, hm⟩
+    · rw [hm]
       simp only []
-      show SimGS G A loops lscopes d ip _ stk mem _ spec (applyFn G.cfg (g' + 1 + 1) csp (.bound bv "push") [v] st1)
-      rw [applyFn_bound, callMember_push]
-      have hpush := Runs.of_runsTo (fr := G.fr) (mem := mem1) (fun it_ => RunsTo.of_exec1 (fun k =>
-        reach_push G.code G.lim (baseOf (withIt G.s it_) A.fn A.rest A.mp st1.world)
-          (ip + nI (cpE G.mod (ρS env.scopes) a.2 env.lm).1 + nI CB.1 + 1) k
-          (⟨.bound bv "push", memOrg st1.heap bv "push"⟩ :: ⟨v, none⟩ :: stk) mem1 ⟨A.fn, 0⟩ A.rest A.c rfl hA.code (.int 1) csp
-          (.int (I64.ofInt 1)) ipush (fun _ => rfl)))
-      cases bv <;> try trivial
-      rename_i ad
-      simp only []
-      cases hc : st1.heap[ad]? with
-      | none => trivial
-      | some c =>
-        cases c <;> try trivial
-        rename_i xs
+      have hb2 := bound_of_resolved hrel.rel.scopes (Frag.varsE a.2) hTa' hresa
+      obtain ⟨v', hv', hev1, _⟩ := atom_eval G.cfg _ a.2 st1 (Nat.le_refl _) hat (by rw [hfr1]; exact hb2)
+      have hsc1 : st1.scopes = spec.scopes := by rw [hfr1]
+      rw [hsc1, hv] at hv'
+      cases hv'
+      simp only [List.map_cons, List.map_nil]
+      rw [evalList_cons]
+      rcases hev1 g with h | h
+      · rw [h]; trivial
+      · rw [h]
         simp only []
-        have hcall := Runs.of_exec1W (fr := G.fr) (mem := mem1) (fun it_ k =>
-          mkS_callVal_push G.code G.lim (withIt G.s it_) A.fn _ A.rest A.mp k stk mem1.cells st1.world A.c hA.code csp ad xs v
-            none (memOrg st1.heap (.ref ad) "push") none icall hc) (fun hi => hi.set _ _ (fun fs h => by cases h))
-        refine ⟨by rw [hfr1], mem1, ((((hrunAB.trans hmr).trans hpush).trans hcall)).cast (by omega), hml1.mono (by omega), ?_⟩
-        show GRel G A env.scopes env.vm st1.scopes mem1
-        rw [hfr1]; exact hrel.memLe hml1
-  · rw [hm]; trivial
+        cases g with
+        | zero => rw [evalList]; trivial
+        | succ g' =>
+        rw [evalList_nil]
+        simp only []
+        show SimGS G A loops lscopes d ip _ stk mem _ spec (applyFn G.cfg (g' + 1 + 1) csp (.bound bv "push") [v] st1)
+        rw [applyFn_bound]
+        exact tail bv v none ob st1 mem1 hfr1 hml1 hrunAB
+    · rw [hm]; trivial
 
 end HmsProofs.Sim
